@@ -241,6 +241,16 @@ pub fn s_odd(enc: Enc) -> Image {
     image_from_bytes(&format!("s-odd/{}", enc.name()), b.bytes, None, &[".dynsym", ".symtab.2"], 64)
 }
 
+/// `s_core` as a core file (e_type = ET_CORE): file-type specific leniency must not exist
+pub fn s_core_as_corefile(enc: Enc) -> Image {
+    let mut img = s_core(enc);
+    let mut bytes = (*img.bytes).clone();
+    put(&mut bytes, 16, 2, enc.order, 4);
+    img.bytes = Arc::new(bytes);
+    img.name = format!("s-core(ET_CORE)/{}", enc.name());
+    img
+}
+
 pub fn s_phdrs(enc: Enc) -> Image {
     let sk = small_shapes().into_iter().find(|s| s.name == format!("phdrs-only/{}", enc.name())).unwrap();
     let mut img = image_from_bytes(&format!("s-phdrs-only/{}", enc.name()), sk.bytes, None, &[".x"], 64);
@@ -902,6 +912,7 @@ pub fn stream_cases(tier: Tier, _which: Which) -> Vec<StreamCase> {
                 v.push(StreamCase { make: s_symver, enc: *e, dev: 1, max_depth: Some(1), label: "s_symver_dev1_depth1" });
                 v.push(StreamCase { make: s_odd, enc: *e, dev: 0, max_depth: Some(3), label: "s_odd_dev0_depth3" });
                 v.push(StreamCase { make: s_odd, enc: *e, dev: 1, max_depth: Some(1), label: "s_odd_dev1_depth1" });
+                v.push(StreamCase { make: s_core_as_corefile, enc: *e, dev: 1, max_depth: Some(1), label: "s_corefile_dev1_depth1" });
             }
             Tier::Thorough => {
                 v.push(StreamCase { make: s_core, enc: *e, dev: 1, max_depth: None, label: "s_core_dev1_fixpoint" });
@@ -913,6 +924,7 @@ pub fn stream_cases(tier: Tier, _which: Which) -> Vec<StreamCase> {
                 v.push(StreamCase { make: s_symver, enc: *e, dev: 1, max_depth: Some(3), label: "s_symver_dev1_depth3" });
                 v.push(StreamCase { make: s_odd, enc: *e, dev: 0, max_depth: None, label: "s_odd_dev0_fixpoint" });
                 v.push(StreamCase { make: s_odd, enc: *e, dev: 1, max_depth: Some(3), label: "s_odd_dev1_depth3" });
+                v.push(StreamCase { make: s_core_as_corefile, enc: *e, dev: 1, max_depth: Some(2), label: "s_corefile_dev1_depth2" });
             }
         }
     }
